@@ -158,6 +158,20 @@ def shape_owned(coll, kinds, base_id=6):
                  guard=guard_paths("g", n), rguard=guard_paths("g", n))
 
 
+def shape_refnew(fields):
+    """RefLockCollection::new over owned data `(&mut u.x, ...)`: the unchecked-at-runtime constructor, with
+    the members listed in a fixed non-ascending address order"""
+    ids = {"m0": 0, "r0": 1, "m1": 2, "r1": 3, "m2": 4, "r2": 5}
+    kinds = "".join(f[0].upper() for f in fields)
+    leaves = [(str(ids[f]), f[0].upper(), "&u.%s" % f) for f in fields]
+    tup = "(" + ", ".join("&mut u.%s" % f for f in fields) + ("," if len(fields) == 1 else "") + ")"
+    lty = "(" + ", ".join("&mut %s" % f[0].upper() for f in fields) + ("," if len(fields) == 1 else "") + ")"
+    n = len(fields)
+    return Shape("rfn_%s" % "".join(fields), "ref", ["let mut u = universe();"],
+                 ["let tup = %s;" % tup, "let coll = RefLockCollection::new(&tup);"], "RefLockCollection::<%s>" % lty, leaves,
+                 all(k == "R" for k in kinds), guard=guard_paths("g", n), rguard=guard_paths("g", n))
+
+
 def shape_array(coll, n, container="array"):
     """boxed / retry collection over an array or Vec of mutex references"""
     st, names = picks("M" * n)
@@ -252,6 +266,8 @@ def all_shapes(tier):
     for coll in ("owned", "boxed", "retry", "ref"):
         for kinds in (("MR", "RR") if tier == "quick" else ("M", "MR", "RR", "MRM", "RRR", "MRMR")):
             sh.append(shape_owned(coll, kinds))
+    sh.append(shape_refnew(("m2", "r0", "m0")))
+    sh.append(shape_refnew(("r2", "r0")))
     sh.append(shape_pois("M"))
     sh.append(shape_pois("R"))
     for n in ("bx_bx", "bx_rt", "rt_bx", "bx_ow", "rt_ow", "ow_ow"):
